@@ -1161,10 +1161,11 @@ func (s *Store) streamBackupDB(ctx context.Context, name string, remotePos ltx.P
 		return ltx.Pos{}, ltx.NewPosMismatchError(remotePos)
 	}
 
-	// Check local replication position.
-	// If we haven't written anything yet then try to send data.
+	// Check local replication position. If we haven't written anything yet
+	// then there is nothing to send. If the backup has data for the database
+	// then it is ahead of us and we restore from it below.
 	localPos := db.Pos()
-	if localPos.IsZero() {
+	if localPos.IsZero() && remotePos.IsZero() {
 		return localPos, nil
 	}
 
